@@ -2,7 +2,8 @@ From Coq Require Import ZArith NArith List Bool.
 From Coq Require Import ExtrOcamlBasic.
 From Falcon.lib Require Import Wire PyStr.
 From Falcon.C03 Require Model.
-From Falcon.C04 Require Import Model Spec.
+From Falcon.C12 Require Json.
+From Falcon.C04 Require Import Model Spec Body.
 Import ListNotations.
 Open Scope Z_scope.
 
@@ -25,7 +26,7 @@ Definition v_link (l : link) : val := L [vstr (l_text l); vstr (l_href l); vstr 
 
 Definition d_herr (v : val) : herr :=
   {| e_status := dN (nth_val 0 v); e_title := dstr (nth_val 1 v);
-     e_desc := dopt dstr (nth_val 2 v); e_code := dopt dZ (nth_val 3 v);
+     e_desc := dopt dstr (nth_val 2 v); e_code := dopt (fun c => if dZ (nth_val 0 c) =? 0 then CodeInt (dZ (nth_val 1 c)) else CodeStr (dstr (nth_val 1 c))) (nth_val 3 v);
      e_link := dopt dec_link (nth_val 4 v); e_headers := dopt d_pairs (nth_val 5 v) |}.
 
 Definition d_hstat (v : val) : hstat :=
@@ -78,11 +79,14 @@ Definition d_mfail (v : val) : mfail :=
      bad_tags := dlist (fun p => (dN (nth_val 0 p), d_exc (nth_val 1 p))) (nth_val 1 v) |}.
 
 Definition v_errdict (d : errdict) : val :=
-  L [vstr (d_title d); vopt vstr (d_desc d); vopt I (d_code d); vopt v_link (d_link d)].
+  L [vstr (d_title d); vopt vstr (d_desc d); vopt (fun c => match c with CodeInt z => L [I 0; I z] | CodeStr x => L [I 1; vstr x] end) (d_code d); vopt v_link (d_link d)].
 
 Definition v_data (d : data) : val :=
   match d with
-  | DRaw b => L [I 0; vstr b] | DJson e => L [I 1; v_errdict e] | DXml e => L [I 2; v_errdict e]
+  | DRaw b => L [I 0; vstr b]
+  | DJson e => L [I 1; v_errdict e;
+                  match json_body e with Json.SBytes b => L [vstr b] | _ => L [] end]
+  | DXml e => L [I 2; v_errdict e; L [vstr (xml_body e)]]
   end.
 Definition v_media (m : media) : val :=
   match m with MErr e => L [I 0; v_errdict e] | MApp t => L [I 1; vN t] end.
@@ -135,6 +139,13 @@ Definition run (v : val) : val :=
     let ops' := dlist d_op ops in
     L [I 1; vlist (vopt v_hid) (run_ops (replay init_registry (d_hist hist)) ops');
        vlist (vopt v_hid) (spec_ops (d_hist hist) ops')]
+  | L [I 4; text] =>
+    (* the XML reader on a decoded body *)
+    match read_xml (dstr text) with
+    | None => L [I 0]
+    | Some x => L [I 1; vstr (x_title x); vopt vstr (x_desc x); vopt vstr (x_code x);
+                   vopt v_link (x_link x)]
+    end
   | L [I 2; hist; scripts; x; oh; esc; st] =>
     L [I 1; vlist vnat (oracle (d_hist hist) (dlist d_script scripts) (d_exc x)
                                (dopt d_hid oh) (dbool esc) (dN st))]
